@@ -59,7 +59,7 @@ def cycle5(stride):
 class C01(Prop):
     ID = "C01"
     RULE = ("every automaton of FA(n,k,t) modulo renaming, built as epsilon-NFA and, when valid, as NFA and DFA "
-            "(add_* calls and constructor arguments), under each order policy x naming scheme; "
+            "(add_* calls and constructor arguments; epsilon cases also offered to the NFA class, which must refuse or obey), under each order policy x naming scheme; "
             "non-trivial = language neither empty nor only-epsilon")
     BOUNDS = "n<=3; words: all of length <=4 over {a,b} + one foreign symbol; language equalities exact"
     CLAUSES = ["C01.accepts", "C01.accepts.epsilon_spelling", "C01.<op>.lang", "C01.<op>.accepts", "C01.<op>.shape",
